@@ -215,3 +215,29 @@ Proof.
     apply Key. intros h Hh. destruct p as [|x r]; [destruct Hh|].
     apply ig_append_In in Hh. eapply Permutation_in; [exact Hperm|]. cbn [In] in *. destruct Hh as [[->|[]]|Hh]; auto.
 Qed.
+
+(* import = union, for ANY pair of lists: the text exported from a list `o` (in any iteration order p),
+   imported into any duplicate-free list `s` — empty or not, overlapping or not — gives a duplicate-free
+   list whose members are exactly those of s and those of o; nothing is lost, nothing invented *)
+Theorem import_is_union : forall s o p,
+  Permutation p o -> Forall (fun h => (h <= u64_max)%N) o -> NoDup s ->
+  exists s', import_into s (run_export p) = Some s' /\ NoDup s' /\ forall h, In h s' <-> In h s \/ In h o.
+Proof.
+  intros s o p Hperm Hb Hnd.
+  assert (Forall (fun h => (h <= u64_max)%N) p) as Hbp.
+  { rewrite Forall_forall in *. intros h Hh. apply Hb. eapply Permutation_in; eauto. }
+  unfold import_into. rewrite (import_export p Hbp). eexists. split; [reflexivity|]. split.
+  - apply ig_append_NoDup, Hnd.
+  - intros h. rewrite ig_append_In.
+    assert (In h (match p with [] => [] | x :: r => ig_append [x] r end) <-> In h o) as ->; [|tauto].
+    destruct p as [|x r].
+    + apply Permutation_nil in Hperm. subst. tauto.
+    + rewrite ig_append_In. cbn [In]. split.
+      * intros [[->|[]]|H]; eapply Permutation_in; try exact Hperm; cbn [In]; auto.
+      * intros H. apply Permutation_sym in Hperm. pose proof (Permutation_in _ Hperm H) as [<-|H']; auto.
+Qed.
+
+(* IgnoredLints::append itself (harper-ls / harper-wasm merge lists with it): set union *)
+Theorem append_is_union : forall s o,
+  NoDup s -> NoDup (ig_append s o) /\ forall h, In h (ig_append s o) <-> In h s \/ In h o.
+Proof. intros s o H. split; [apply ig_append_NoDup, H | intros h; apply ig_append_In]. Qed.
